@@ -103,8 +103,10 @@ def CbInv (st : State) : Prop :=
     -- a registered callback means callback mode, not ended
     (∀ w, x.cbs id = some w → x.broken id = false → c.queue = none ∧ x.cbWants id = some w ∧ x.ended id = false) ∧
     -- the endmarker is the last callback event and unregisters the callback
-    (∀ pre post, x.cbLog id = pre ++ CbEvent.endmarker :: post → post = []) ∧
-    (CbEvent.endmarker ∈ x.cbLog id → x.cbs id = none) ∧
+    -- (these, "on request" and "suffix" are guarded by `broken`: a re-opened id gets a second
+    -- conversation appended to the same ghost log)
+    (x.broken id = false → ∀ pre post, x.cbLog id = pre ++ CbEvent.endmarker :: post → post = []) ∧
+    (x.broken id = false → CbEvent.endmarker ∈ x.cbLog id → x.cbs id = none) ∧
     -- before setcallback there are no callback events
     (x.cbWants id = none → x.cbLog id = [] ∧ x.cbs id = none) ∧
     -- callback mode that has not ended keeps its callback registered
@@ -112,9 +114,9 @@ def CbInv (st : State) : Prop :=
     -- a requested endmarker has been delivered once the conversation ended at this side
     (x.cbWants id = some true → x.ended id = true → x.broken id = false → CbEvent.endmarker ∈ x.cbLog id) ∧
     -- an endmarker is only ever delivered on request
-    (CbEvent.endmarker ∈ x.cbLog id → x.cbWants id = some true) ∧
+    (x.broken id = false → CbEvent.endmarker ∈ x.cbLog id → x.cbWants id = some true) ∧
     -- the callback saw exactly the items handed over since setcallback
-    (∃ pre, x.got id = pre ++ cbItems (x.cbLog id)) ∧
+    (x.broken id = false → ∃ pre, x.got id = pre ++ cbItems (x.cbLog id)) ∧
     -- ended ⇒ forgotten (unless the id was re-opened, which marks it broken)
     (x.ended id = true → x.broken id = false → c.registered = false)
 
